@@ -140,20 +140,13 @@ class Model(nn.Module):
         strides = self.backbone.dec.current_strides
         self.head_layers = nn.ModuleList([])
         for head in self.heads:
-            in_channels = int(
-                round(
-                    self.backbone.max_channels
-                    / (
-                        self.backbone_config.filters_rate
-                        ** len(self.backbone.dec.decoder_stack)
-                    )
-                )
-            )
-            if head.output_stride != min_output_stride:
-                factor = strides.index(min_output_stride) - strides.index(
-                    head.output_stride
-                )
-                in_channels = in_channels * (self.backbone_config.filters_rate**factor)
+            # The head convolves the decoder output at its own stride: take the channel
+            # count from that decoder block instead of re-deriving it from `filters_rate`
+            # (round / ** disagree with the decoder's int(filters * rate**k) once
+            # truncation compounds, e.g. filters=4, filters_rate=1.5).
+            in_channels = self.backbone.dec.decoder_stack[
+                strides.index(head.output_stride)
+            ].refine_convs_filters
             self.head_layers.append(head.make_head(x_in=int(in_channels)))
 
     @classmethod
